@@ -78,8 +78,14 @@ def cases(draw):
             twin_positive = "up" if guessed_positive(first) == "down" else "down"
         else:
             twin_values, twin_positive = list(first["values"]), guessed_positive(first)
-        depths.append({"name": "height", "dim": first["dim"], "values": twin_values,
-                       "positive": twin_positive, "as": draw(st.sampled_from(["coord", "var"]))})
+        twin = {"name": "height", "dim": first["dim"], "values": twin_values,
+                "positive": twin_positive, "as": draw(st.sampled_from(["coord", "var"]))}
+        if first.get("bounds") is not None and draw(st.booleans()):
+            sign = -1 if twin_values != list(first["values"]) else 1
+            twin["bounds"] = [[sign * a, sign * b] for a, b in first["bounds"]]
+            twin["bounds_as"] = draw(st.sampled_from(["var", "coord"]))
+        # either of the two may come first in the list of names that is handed over
+        depths.insert(draw(st.integers(0, 1)), twin)
     spec["depths"] = depths
     extra = {dc["dim"]: len(dc["values"]) for dc in depths}
     if draw(st.booleans()):
